@@ -82,6 +82,12 @@ func (r *refRules) vote(get refView, curView hotstuff.View, p hotstuff.ProposeMs
 		return ext, true
 	case rules.NameFastHotStuff:
 		if p.AggregateQC != nil {
+			// the aggregate that justifies an unhappy-path proposal is the one of the view just before it: an older
+			// one proves nothing about what the replicas knew when the proposal was made (a leader could otherwise
+			// fork off any old high QC by replaying the aggregate that once contained it)
+			if uint64(p.AggregateQC.View())+1 != uint64(b.View()) {
+				return false, true
+			}
 			jb := get(b.QuorumCert().BlockHash())
 			if jb == nil {
 				return false, true
